@@ -10,30 +10,6 @@ variable {K : Classify}
 
 /-! ### `accept` -/
 
-theorem acceptQ_eq_accept (hk : NoPrependUnique K) (b : List Arg) {s1 s2 : List Arg}
-    (h : ∀ x, K.dd x = .unique → (x ∈ s1 ↔ x ∈ s2)) : acceptQ K s1 b = accept K s2 b := by
-  induction b generalizing s1 s2 with
-  | nil => rfl
-  | cons a as ih =>
-    simp only [acceptQ, accept]
-    by_cases hu : K.dd a = .unique
-    · simp only [hu, true_and, h a hu]
-      split
-      · exact ih h
-      · congr 1
-        apply ih
-        intro x hx
-        have hpa : K.pp a ≠ true := fun hp => hk a hp hu
-        simp [hpa, h x hx]
-    · simp only [hu, false_and, if_false]
-      congr 1
-      apply ih
-      intro x hx
-      split
-      · have : x ≠ a := fun e => hu (e ▸ hx)
-        simp [this, h x hx]
-      · simp [h x hx]
-
 theorem accept_sublist (seen b : List Arg) : (accept K seen b).Sublist b := by
   induction b generalizing seen with
   | nil => exact List.Sublist.slnil
@@ -115,13 +91,13 @@ theorem count_accept_unique {seen b : List Arg} {x : Arg} (hu : K.dd x = .unique
 
 /-! ### the eager `+=` is `specAdd` -/
 
-theorem eager_iadd_container (hk : NoPrependUnique K) (L b : List Arg) :
+theorem eager_iadd_container (L b : List Arg) :
     (flush K (iadd K (mk L) b)).container = specAdd K L b := by
   rw [flush_eq _ (inv_iadd _ b (inv_mk L)), iadd_eq]
   have hacc : accepted K (mk L) b = accept K L b := by
     unfold accepted
-    apply acceptQ_eq_accept hk
-    intro x _
+    apply accept_congr
+    intro x
     simp [mk]
   rw [hacc]
   simp only [mk, List.append_nil, List.nil_append, flushList, specAdd]
